@@ -106,6 +106,23 @@ Allows `inspect.signature` to read forged signatures from your own objects.
 """
 
 
+class _ClassForger(object):
+    """Hands the forger set on a class to whoever asks the class (or a
+    subclass) for it, not to who asks one of its instances"""
+    def __init__(self, forger):
+        self.forger = forger
+
+    def __get__(self, instance, owner):
+        if instance is not None:
+            raise AttributeError('_sigtools__forger')
+        return self.forger
+
+    def __call__(self, *args, **kwargs):
+        # (functools.update_wrapper copies it along with the class's other
+        # attributes)
+        return self.forger(*args, **kwargs)
+
+
 def set_signature_forger(obj, forger, emulate=None):
     """Attempts to set the given signature forger on the supplied object.
 
@@ -120,7 +137,12 @@ def set_signature_forger(obj, forger, emulate=None):
     """
     if not emulate:
         try:
-            obj._sigtools__forger = forger
+            if isinstance(obj, type):
+                # the forger is for the class: its instances are other
+                # callables (through __call__) and do not inherit it
+                obj._sigtools__forger = _ClassForger(forger)
+            else:
+                obj._sigtools__forger = forger
             return obj
         except (AttributeError, TypeError):
             if emulate is False:
